@@ -169,15 +169,23 @@ def run_case(ctx, proto, lay, xop, nself, xconfig, nm, npg, answers=None, bound=
         h = MeiosisHandler(ch, xop, mode="full")
         rng = ScriptedGenerator(h)
         prot = cls(progeny_counter=counters[0], family_counter=counters[1], rng=rng)
-        o1 = prot.mate(pg, xc, nm_a, np_a, nself=nself)
+        # fresh argument arrays per execution (a library build that edits them in place must not poison later
+        # executions); they are compared with the originals afterwards
+        xc_i = xc.copy()
+        nm_i = nm_a if isinstance(nm_a, int) else nm_a.copy()
+        np_i = np_a if isinstance(np_a, int) else np_a.copy()
+        o1 = prot.mate(pg, xc_i, nm_i, np_i, nself=nself)
         ncall1 = len(h.draws)
         cnt1 = (prot.progeny_counter, prot.family_counter)
         o2 = None
         cnt2 = None
         if two_calls:
             h.menus = [m[:1] for m in h.menus]     # second call: default answers only
-            o2 = prot.mate(pg, xc, nm_a, np_a, nself=nself)
+            o2 = prot.mate(pg, xc_i, nm_i, np_i, nself=nself)      # the SAME argument objects as the first call
             cnt2 = (prot.progeny_counter, prot.family_counter)
+        args_same = (numpy.array_equal(xc_i, xc) and (isinstance(nm_a, int) or numpy.array_equal(nm_i, nm_a))
+                     and (isinstance(np_a, int) or numpy.array_equal(np_i, np_a)))
+        h.args_same = args_same
         return (cnt1, cnt2), o1, o2, h, ncall1
 
     if split is not None:
@@ -195,6 +203,8 @@ def run_case(ctx, proto, lay, xop, nself, xconfig, nm, npg, answers=None, bound=
         ctx.transitions += 2 if two_calls else 1
         case = dict(case_base, answers=_trim(ch.taken))
         xo1 = [d[2] for d in h.draws[:ncall1]]
+        ctx.guard(lambda: require(h.args_same, f"{proto}:argument-mutated", "mate() changed xconfig / nmating / nprogeny in place"),
+                  case=case)
         ok = ctx.guard(lambda: oracle(ctx, proto, pg, before, decode, xc, nm, npg, nself, xop, counters, cnts[0], o1, xo1, first=True),
                        case=case, sig_prefix=f"{proto}:")
         if two_calls and ok:
